@@ -454,6 +454,7 @@ def c12(sess):
     tasks = sess.definition.get("tasks", {})
     prev = None
     offered = {}          # (task, route, record count, retry tally) -> set of item ids offered
+    dormant_seen = set()  # (task, route) of with-items executions in which some item reported paused / pending
     stop = first_raw(sess)
     for i, (op, obs) in enumerate(sess.trace):
         if i >= stop:
@@ -500,10 +501,15 @@ def c12(sess):
                     seen.update(ids)
             if op[0] == "get_next" and obs["result"] and pst["status"] in ("pausing", "paused", "canceling", "canceled"):
                 out.append({"what": "actions offered while %s" % pst["status"], "step": i})
-            # the window at every state: active items <= literal concurrency
+            # the window at every state: active items <= literal concurrency.  An item whose action reported paused or
+            # pending gives its slot up (the engine's window counts active items only); when it wakes up again the
+            # count can exceed the limit by design, so the clause is about executions in which no item was dormant.
+            if op[0] == "event" and op[3][0] == "item" and op[3][2] in ("paused", "pending"):
+                dormant_seen.add((op[1], op[2]))
             for s in st["staged"]:
                 w = tasks.get(s["id"], {}).get("with")
                 if isinstance(w, dict) and isinstance(w.get("concurrency"), int) and "items" in s \
+                        and (s["id"], s["route"]) not in dormant_seen \
                         and sess.tags[i] in CONFORMANT:
                     active = len([x for x in s["items"] if x["status"] in ACTIVE])
                     if active > max(w["concurrency"], 1):
